@@ -23,15 +23,16 @@ import (
 
 // Config of one run. Everything here is part of the replay file.
 type Config struct {
-	MeanGap   int      `json:"mean_gap"`   // mean number of (weighted) yield points between preemptions; 0 = never preempt
-	HotFiles  []string `json:"hot_files"`  // site prefixes where a yield point counts HotWeight times
-	HotWeight int      `json:"hot_weight"` // weight of hot sites (default 1)
-	Policy    string   `json:"policy"`     // uniform | sticky | starve
-	Sticky    int      `json:"sticky"`     // percent chance to keep the previous goroutine (policy sticky)
-	StepCap   int64    `json:"step_cap"`
-	MaxIdleMs int      `json:"max_idle_ms"` // simulated time without runnable goroutine before quiescence is declared
-	AuxSeed   uint64   `json:"aux_seed"`    // seed of math/rand shim and other non-decision randomness
-	Trace     bool     `json:"-"`
+	MeanGap      int      `json:"mean_gap"`   // mean number of (weighted) yield points between preemptions; 0 = never preempt
+	HotFiles     []string `json:"hot_files"`  // site prefixes where a yield point counts HotWeight times
+	HotWeight    int      `json:"hot_weight"` // weight of hot sites (default 1)
+	Policy       string   `json:"policy"`     // uniform | sticky | starve
+	Sticky       int      `json:"sticky"`     // percent chance to keep the previous goroutine (policy sticky)
+	StepCap      int64    `json:"step_cap"`
+	MaxIdleMs    int      `json:"max_idle_ms"`              // simulated time without runnable goroutine before quiescence is declared
+	AuxRepeatPct int      `json:"aux_repeat_pct,omitempty"` // percent of the values of the math/rand shim that repeat one of the last four
+	AuxSeed      uint64   `json:"aux_seed"`                 // seed of math/rand shim and other non-decision randomness
+	Trace        bool     `json:"-"`
 }
 
 // Crash is the death of a node's process: a panic in one of its goroutines or
@@ -108,30 +109,31 @@ type Stats struct {
 
 // Sim is one simulated execution.
 type Sim struct {
-	mu      sync.Mutex
-	cfg     Config
-	gs      map[uint64]*G
-	all     []*G
-	holder  *G
-	last    *G
-	tape    *Tape
-	aux     *rand.Rand
-	gap     int
-	pctLow  int // policy pct: next priority below everybody else
-	weights map[string]int
-	seq     atomic.Int64
-	stats   Stats
-	crashes []Crash
-	abort   bool
-	capHit  bool
-	start   time.Time
-	trace   []string
-	fp      uint64
-	efp     uint64
-	Ext     map[string]interface{}
-	waiters []*G
-	maps    map[unsafe.Pointer][]mapRec
-	races   []MapRace
+	mu        sync.Mutex
+	cfg       Config
+	gs        map[uint64]*G
+	all       []*G
+	holder    *G
+	last      *G
+	tape      *Tape
+	aux       *rand.Rand
+	gap       int
+	pctLow    int // policy pct: next priority below everybody else
+	weights   map[string]int
+	seq       atomic.Int64
+	stats     Stats
+	crashes   []Crash
+	abort     bool
+	capHit    bool
+	start     time.Time
+	trace     []string
+	fp        uint64
+	efp       uint64
+	Ext       map[string]interface{}
+	waiters   []*G
+	auxForced []uint64
+	maps      map[unsafe.Pointer][]mapRec
+	races     []MapRace
 }
 
 var cur atomic.Pointer[Sim]
@@ -594,7 +596,36 @@ func Aux() uint64 {
 	}
 	s.mu.Lock()
 	defer s.mu.Unlock()
-	return s.aux.Uint64()
+	v := s.aux.Uint64()
+	return v
+}
+
+// AuxUint32 is Aux for 32 bit draws: values queued with AuxForce come first.
+func AuxUint32() uint32 {
+	s := cur.Load()
+	if s != nil {
+		s.mu.Lock()
+		if len(s.auxForced) > 0 {
+			v := s.auxForced[0]
+			s.auxForced = s.auxForced[1:]
+			s.mu.Unlock()
+			return uint32(v)
+		}
+		s.mu.Unlock()
+	}
+	return uint32(Aux() >> 32)
+}
+
+// AuxForce makes the next 32 bit draws of the math/rand shim return the given
+// values (a random source may return any value: here it returns awkward ones).
+func AuxForce(vs ...uint64) {
+	s := cur.Load()
+	if s == nil {
+		return
+	}
+	s.mu.Lock()
+	s.auxForced = append(s.auxForced, vs...)
+	s.mu.Unlock()
 }
 
 // SelOrder gives the poll order of a multi-way select.
